@@ -192,7 +192,7 @@ func c12Bubble(tp *core.Tape, e *core.Env) (ops []string) {
 			case off >= len(gotBody) || off >= len(payload):
 				oc = "tail"
 			}
-			e.Violate("bytes-differ", fmt.Sprintf("class=%s,gzip=%v,first-diff=%s", class, gz, oc),
+			e.Violate("bytes-differ", fmt.Sprintf("first-diff=%s", oc),
 				"body differs from what the target served: got %d bytes, served %d bytes, first difference at offset %d (%s, chunks %v, via %s)", len(gotBody), len(payload), off, asg, chunks, via)
 		}
 		if gotCT != ct {
